@@ -1403,6 +1403,7 @@ func (vc *VC) chanInvRecv(ch ssa.Value, v string, et types.Type, st *State) {
 			sort.Strings(missing)
 			vc.fail("channel invariant of %s assumed at a receive, but these senders are not checked in this claim: %s", ci.Type, strings.Join(missing, ", "))
 		}
+		vc.checkChanInvFields(ci, et)
 		f, env := vc.chanInvTerm(ci, SVal{t: vc.val(ch), typ: ch.Type(), sort: "Int"}, v, et, st)
 		env.flushSide(vc.reach[vc.curBlock])
 		vc.assume(f)
@@ -1416,5 +1417,72 @@ func (vc *VC) chanInvSend(ch, x ssa.Value, st *State) {
 		reach := vc.reach[vc.curBlock]
 		env.flushSide(reach)
 		vc.oblige("chan.send.inv", "", reach, f, "value sent on "+ci.Type+" satisfies the channel invariant")
+	}
+}
+
+// checkChanInvFields: a channel invariant that reads fields of the message (v.f) is established when the message is
+// sent and used when it is received; in between the fields must not change. Checked syntactically: every store to
+// such a field in the package goes through a pointer to a struct allocated in the same function (the initialisation
+// of a fresh message).
+func (vc *VC) checkChanInvFields(ci *InvDef, et types.Type) {
+	pt, ok := et.Underlying().(*types.Pointer)
+	if !ok {
+		return
+	}
+	stT, ok := pt.Elem().Underlying().(*types.Struct)
+	if !ok {
+		return
+	}
+	fields := map[string]bool{}
+	var walk func(e Expr)
+	walk = func(e Expr) {
+		switch n := e.(type) {
+		case *EUnary:
+			walk(n.X)
+		case *EBinary:
+			walk(n.X)
+			walk(n.Y)
+		case *ECall:
+			walk(n.Fun)
+			for _, a := range n.Args {
+				walk(a)
+			}
+		case *ESelect:
+			if id, ok := n.X.(*EIdent); ok && id.Name == ci.Var {
+				fields[n.Name] = true
+			}
+			walk(n.X)
+		case *EIndex:
+			walk(n.X)
+			walk(n.I)
+		}
+	}
+	walk(ci.Body)
+	if len(fields) == 0 {
+		return
+	}
+	for fn := range ssautil.AllFunctions(vc.w.prog) {
+		if fn.Pkg != vc.fn.Pkg {
+			continue
+		}
+		for _, b := range fn.Blocks {
+			for _, in := range b.Instrs {
+				stI, ok := in.(*ssa.Store)
+				if !ok {
+					continue
+				}
+				fa, ok := stI.Addr.(*ssa.FieldAddr)
+				if !ok {
+					continue
+				}
+				bp, ok := fa.X.Type().Underlying().(*types.Pointer)
+				if !ok || !types.Identical(bp.Elem().Underlying(), stT) || !fields[fieldName(fa)] {
+					continue
+				}
+				if _, fresh := fa.X.(*ssa.Alloc); !fresh {
+					vc.fail("channel invariant of %s reads field %s of the message, but %s stores to that field of an existing message", ci.Type, fieldName(fa), fn.Name())
+				}
+			}
+		}
 	}
 }
